@@ -66,6 +66,7 @@ class Profile:
         self.hdr_variants = False
         self.pin_origin = True          # always give file_set_number and creation_time
         self.upper_names = False        # names restricted to [A-Z0-9_-]+
+        self.reuse_ref_lists = False    # the caller passes one re-used list object for all lists of references
         self.shared_datasets = False    # a frame may get an extra channel re-using an earlier channel's dataset
         self.dtypes = None              # restrict channel dtypes (list of codes like 'f8'); None = all eight
         self.number_pool = None         # draw every number from this small pool (C14: equal-but-distinct values)
@@ -433,7 +434,8 @@ def draw_frame(draw, g, fidx, rows=None):
         if p.casts and draw(st.integers(0, 3)) == 0:
             cast = well_defined_cast(draw, aj['dt'][1:], aj)
             if cast:
-                op['cast'] = DTYPE_NAME[cast]
+                # a type (np.float32) or a dtype object with an explicit byte order (np.dtype('>f4'))
+                op['cast'] = draw(st.sampled_from(['', '', '>', '<'])) + DTYPE_NAME[cast]
         op['attrs'] = draw_attrs(draw, 'channel', g, exclude=('dimension', 'element_limit', 'axis', 'source',
                                                              'minimum_value', 'maximum_value')
                                  if not p.meta_kinds else ('dimension', 'element_limit', 'axis'))
@@ -791,6 +793,8 @@ def min_rows(lf):
 def file_specs(draw, profile):
     vrl = draw_vrl(draw, profile)
     spec = {'kind': 'spec', 'sul': {'vrl': vrl}, 'lfs': [], 'write': {}}
+    if profile.reuse_ref_lists and draw(st.booleans()):
+        spec['reuse_ref_lists'] = True
     if profile.sul_variants:
         spec['sul'].update({'id': draw(st.text(alphabet=UPPER if profile.upper_names else PRINTABLE,
                                                min_size=1 if profile.upper_names else 0, max_size=60)),
